@@ -389,8 +389,9 @@ def dtype_family_representatives():
         "catOtherOrd": [pd.CategoricalDtype([1, 2], ordered=True), pd.CategoricalDtype([2.5, 1.5], ordered=True)],
         "catStrOrd": [pd.CategoricalDtype(["a", "b"], ordered=True)],
         "catBoolOrd": [pd.CategoricalDtype([True, False], ordered=True)],
-        "str": [pd.StringDtype(na_value=np.nan)],
+        "str": [pd.StringDtype(na_value=np.nan), pd.StringDtype("python", na_value=np.nan)],
         "string": [pd.StringDtype("python")],
+        "stringArrow": [pd.StringDtype("pyarrow")],
         "period": [pd.PeriodDtype("D")],
         "interval": [pd.IntervalDtype("int64")],
         "sparseFloat": [pd.SparseDtype("float64"), pd.SparseDtype("float32")],
